@@ -89,6 +89,59 @@ Theorem C03_err_sq_is_diag : forall X i,
 Proof. exact err_sq_is_diag. Qed.
 Print Assumptions C03_err_sq_is_diag.
 
+(* samples with undefined entries (0/0 when the only populated patch of a bin is left out, the
+   root of a negative number): entry (i,j) of the covariance is a function of bins i and j of the
+   N samples only ... *)
+Theorem C03_cov_code_columns : forall (X Y : list (list Q)) i j,
+  col X i = col Y i -> col X j = col Y j -> cov_code X i j == cov_code Y i j.
+Proof. exact cov_code_columns. Qed.
+Print Assumptions C03_cov_code_columns.
+
+Theorem C03_cov_opt_columns : forall (X Y : list (list oq)) i j,
+  ocol X i = ocol Y i -> ocol X j = ocol Y j ->
+  match cov_opt X i j, cov_opt Y i j with
+  | Some c, Some c' => c == c'
+  | None, None => True
+  | _, _ => False
+  end.
+Proof. exact cov_opt_columns. Qed.
+Print Assumptions C03_cov_opt_columns.
+
+(* ... for bins defined in all samples it is the delete-one covariance over ALL N samples ... *)
+Theorem C03_cov_opt_defined : forall (X : list (list oq)) i j,
+  col_defined X i = true -> col_defined X j = true ->
+  exists c, cov_opt X i j = Some c /\ c == cov_spec (fill X) i j.
+Proof. exact cov_opt_defined. Qed.
+Print Assumptions C03_cov_opt_defined.
+
+(* ... it has no value when one of the two bins has an undefined sample ... *)
+Theorem C03_cov_opt_undefined : forall (X : list (list oq)) i j,
+  col_defined X i = false \/ col_defined X j = false -> cov_opt X i j = None.
+Proof. exact cov_opt_undefined. Qed.
+Print Assumptions C03_cov_opt_undefined.
+
+(* ... estimating from the complete samples only is NOT this matrix, not even on the bins that
+   are defined in every sample ... *)
+Theorem C03_cov_drop_refuted :
+  exists (X : list (list oq)) i j, col_defined X i = true /\ col_defined X j = true /\
+    ~ cov_drop X i j == cov_code (fill X) i j.
+Proof. exact cov_drop_refuted. Qed.
+Print Assumptions C03_cov_drop_refuted.
+
+(* ... and the block of the defined bins is positive semi-definite (the checker's probe vectors
+   are supported on it) *)
+Theorem C03_cov_opt_psd : forall (X : list (list oq)) v,
+  (forall i, col_defined X i = false -> nth i v 0 == 0) ->
+  quad (ncols (fill X)) v (cov_opt0 X) == quad (ncols (fill X)) v (cov_spec (fill X))
+  /\ 0 <= quad (ncols (fill X)) v (cov_opt0 X).
+Proof. exact cov_opt_psd. Qed.
+Print Assumptions C03_cov_opt_psd.
+
+Theorem C03_mask_probe_support : forall (X : list (list oq)) v i,
+  col_defined X i = false -> nth i (mask_probe X v) 0 == 0.
+Proof. exact mask_probe_support. Qed.
+Print Assumptions C03_mask_probe_support.
+
 (* redshift histograms: the index array of the CURRENT resample_jackknife leaves out patch
    N-1-k in row k (all N, all histograms) ... *)
 Theorem C03_hist_resample_cur_order : forall B obs k,
@@ -138,3 +191,19 @@ Example C03_concrete_cov :
   let X := [[1; 2]; [3; 5]; [5; 5]] in
   map (map Qred) (cov_matrix X) = [[16 # 3; 4]; [4; 4]].
 Proof. vm_compute. reflexivity. Qed.
+
+Example C03_concrete_cov_undefined :
+  let X := [[Some 1; Some 2; Some 3]; [Some 2; None; Some 5]; [Some 4; Some 1; Some 1]; [Some 0; Some 0; Some 7]] in
+  (* bin 1 is undefined in sample 1: row and column 1 have no value, the rest is the covariance of all 4 samples *)
+  map (fun i => map (fun j => option_map Qred (cov_opt X i j)) [0; 1; 2]%nat) [0; 1; 2]%nat
+  = [[Some (105 # 16); None; Some (-33 # 4)]; [None; None; None]; [Some (-33 # 4); None; Some 15]]
+  (* the estimate from the 3 complete samples is another number *)
+  /\ Qred (cov_drop X 0 0) = 52 # 9
+  (* the checker rejects that matrix: bit 0 (numbers where the model has none) and bit 1 (defined block) *)
+  /\ Nat.land (c03_covopt_case X [[Some (52 # 9); Some (2 # 3); Some (-68 # 9)]; [Some (2 # 3); Some (4 # 3); Some (-8 # 3)];
+                                  [Some (-68 # 9); Some (-8 # 3); Some (112 # 9)]] [Some 2; Some 1; Some 3] []) 3 = 3%nat
+  (* and accepts the entry-wise one (2 patches, exact roots) *)
+  /\ c03_covopt_case [[Some 0; None; Some 1]; [Some 2; Some 1; Some 5]]
+                     [[Some 1; None; Some 2]; [None; None; None]; [Some 2; None; Some 4]] [Some 1; None; Some 2]
+                     [[1; 1; 1]; [1; -1; -2]] = 0%nat.
+Proof. vm_compute. repeat split; reflexivity. Qed.
